@@ -480,21 +480,32 @@ pub fn run_c12(ctx: &Ctx) -> i32 {
 /// Let a finished world drain its outgoing DATAGRAM queues: keep running as long as the queues keep
 /// shrinking (slow worlds - minimum windows, pacing caps - take their time), up to an hour of
 /// virtual time. What is left when a whole minute passes without a single datagram leaving is stuck.
-fn drain_dgram_queues(w: &mut crate::world::World) {
-    let queued = |w: &crate::world::World| -> usize { w.eps.iter().flat_map(|e| e.conns.values()).filter(|c| !c.c.is_closed()).map(|c| c.c.verif_probe().dgram_outgoing.0).sum() };
-    let mut last = queued(w);
-    for _ in 0..60 {
-        if last == 0 {
-            break;
+/// Let the outgoing DATAGRAM queues drain. Returns true if they stalled: a minute of virtual time
+/// in which no queue got shorter and no application handed over anything new (an application that
+/// still has datagrams to send refills the queue as fast as it drains; that is not a stall).
+fn drain_dgram_queues(w: &mut crate::world::World) -> bool {
+    let state = |w: &crate::world::World| -> (usize, u64) {
+        let live = || w.eps.iter().flat_map(|e| e.conns.values()).filter(|c| !c.c.is_closed());
+        (live().map(|c| c.c.verif_probe().dgram_outgoing.0).sum(), live().map(|c| c.app.dgram_progress() as u64).sum())
+    };
+    let mut last = state(w);
+    for _ in 0..240 {
+        if last.0 == 0 {
+            return false;
         }
         let until = w.now + 60_000_000_000;
         let _ = w.run(20_000, until, |_| false);
-        let now_q = queued(w);
-        if now_q >= last {
-            break;
+        let cur = state(w);
+        if cur.0 >= last.0 && cur.1 == last.1 {
+            if w.now >= until {
+                return true;
+            }
+            // (step cap before the minute was over: keep going)
+            continue;
         }
-        last = now_q;
+        last = cur;
     }
+    false
 }
 
 fn c13_case(seed: u64, trace: bool) -> CaseOut {
@@ -558,8 +569,8 @@ fn c13_case_with(seed: u64, trace: bool, padded: bool) -> CaseOut {
     // nothing stays queued for good: once the world has calmed down the outgoing DATAGRAM queues of
     // the surviving connections are empty
     if !any_lost(&ran.w) && matches!(ran.end, RunEnd::Done) && !padded {
-        drain_dgram_queues(&mut ran.w);
-        if !any_lost(&ran.w) {
+        let stalled = drain_dgram_queues(&mut ran.w);
+        if stalled && !any_lost(&ran.w) {
             for (ei, e) in ran.w.eps.iter().enumerate() {
                 for (ch, c) in &e.conns {
                     ran.w.mon.cnt.inc("c13.dgram_queue_checks");
@@ -694,10 +705,8 @@ fn c16_case(seed: u64, trace: bool) -> CaseOut {
     // let queued datagrams drain, then read whatever the non-reading receivers still hold
     let limit = ran.w.now + 5_000_000_000;
     let _ = ran.w.run(3_000, limit, |_| false);
-    let black_hole_possible = !any_lost(&ran.w) && matches!(ran.end, RunEnd::Done);
-    if black_hole_possible {
-        drain_dgram_queues(&mut ran.w);
-    }
+    let calm = !any_lost(&ran.w) && matches!(ran.end, RunEnd::Done);
+    let queues_stalled = calm && drain_dgram_queues(&mut ran.w);
     // a sender that was told Blocked is told DatagramsUnblocked once there is room again
     if !any_lost(&ran.w) {
         let mut msgs = vec![];
@@ -707,8 +716,8 @@ fn c16_case(seed: u64, trace: bool) -> CaseOut {
                 let p = c.c.verif_probe();
                 // nothing stays queued for good either (datagrams that no longer fit after a
                 // black hole must be discarded, or everything behind them is stuck)
-                if p.dgram_outgoing.0 > 0 && !c.c.is_closed() && c.app.connected && black_hole_possible {
-                    msgs.push(format!("conn {ei}/{ch}: {} DATAGRAMs ({} bytes) still queued and not one has left in the last minute, long after the workload ended; current MTU {}", p.dgram_outgoing.0, p.dgram_outgoing.1, c.c.current_mtu()));
+                if p.dgram_outgoing.0 > 0 && !c.c.is_closed() && c.app.connected && queues_stalled {
+                    msgs.push(format!("conn {ei}/{ch}: {} DATAGRAMs ({} bytes) still queued and not one has left in the last minute, long after the workload ended; current MTU {};{}", p.dgram_outgoing.0, p.dgram_outgoing.1, c.c.current_mtu(), super::c02::diag(&ran.w)));
                 }
                 if c.app.dgram_blocked && p.dgram_outgoing.0 == 0 && !c.c.is_closed() && c.app.connected {
                     msgs.push(format!("conn {ei}/{ch}: send() returned Blocked, the outgoing queue has drained (send_buffer_space {}), but DatagramsUnblocked was never emitted", c.tcfg.dgram_send_buf));
